@@ -1,6 +1,6 @@
 """C37 Each repository is fetched at most once per run (K2 ordering + K3)."""
 from lib.facts import callee_matches, PASS_LABELS
-from lib.rules import (calls_on_field, edges_from_call, fmt_path, who_calls, arg_path)
+from lib.rules import (calls_on_field, edges_from_call, fmt_path, who_calls, arg_path, held_at)
 
 META = dict(
     level='other',
@@ -63,16 +63,17 @@ def rule_order(ctx):
             ctx.check(ok, 'K1', '%s:recheck<fetch' % short,
                       'fetch is only reachable through the not-found edge of an `updated` re-check made under the lock',
                       'fetch is reachable without re-checking `updated` after acquiring the mutex', loc=f.loc())
-            # the guard must still be held at the insert: no drop of the guard local between lock and insert
+            # the guard must still be held at the insert (scope-end Drop, explicit drop(guard) or a move all count)
             for l in dom_locks:
-                guard = l.term['dest'][0]
-                drops = [i for i, blk in enumerate(b.blocks)
-                         if blk['term']['t'] == 'drop' and blk['term']['p'] == [guard] and not blk['cleanup']]
                 for ins in inserts:
-                    early = [d for d in drops if b.can_reach(d, ins.bb) and d != ins.bb]
-                    ctx.check(not early, 'K2', '%s:guard-live-at-insert' % short,
-                              'mutex guard is not dropped before updated.insert',
-                              'mutex guard dropped (bb%s) before updated.insert' % early, loc=ins.loc())
+                    if not b.site_dominates(l, ins):
+                        continue
+                    held, rel = held_at(b, l, ins)
+                    ctx.check(held, 'K2', '%s:guard-live-at-insert' % short,
+                              'the per-repository mutex guard (%s) is still held when the key is inserted into `updated`' % l.loc(),
+                              'the per-repository mutex guard is released at %s before updated.insert (%s): a thread queued on '
+                              'the mutex takes it, does not find the key in `updated` and fetches again'
+                              % (rel.loc() if rel else '?', ins.loc()), loc=ins.loc())
         for r in removes:
             ctx.call_sites += 1
             # OK if dominated by an insert, or dominated by a found-edge of an updated lookup
